@@ -27,12 +27,12 @@ class Rec:
     """records the calls of NumPy's global generator functions while an engine runs"""
 
     def __init__(self):
-        self.choice, self.rand, self.randint, self.uniform = [], [], [], []
+        self.choice, self.rand, self.randint, self.uniform, self.normal = [], [], [], [], []
 
     def __enter__(self):
         import numpy.random as nr
 
-        self._o = {k: getattr(nr, k) for k in ("choice", "rand", "randint", "uniform")}
+        self._o = {k: getattr(nr, k) for k in ("choice", "rand", "randint", "uniform", "normal")}
         rec = self
 
         def choice(a, size=None, replace=True, p=None):
@@ -55,7 +55,12 @@ class Rec:
             rec.uniform.append(np.array(out).tolist())
             return out
 
-        nr.choice, nr.rand, nr.randint, nr.uniform = choice, rand, randint, uniform
+        def normal(*a, **k):
+            out = rec._o["normal"](*a, **k)
+            rec.normal.append(np.array(out).tolist())
+            return out
+
+        nr.choice, nr.rand, nr.randint, nr.uniform, nr.normal = choice, rand, randint, uniform, normal
         return self
 
     def __exit__(self, *exc):
@@ -284,6 +289,133 @@ def slice_engine(ctx, rng, n_cases, only=None):
             if not ok or (len(real) != len(rows) and len(real) >= len(rows)):
                 sl.disagreements.append({"op": line[:6000], "impl": f"archive {real[:4]}", "model": f"archive {rows[:4]}"})
         elif g != e:
+            sl.disagreements.append({"op": line[:6000], "impl": e[:3000], "model": g[:3000]})
+    if lines:
+        sl.sample({"op": lines[0][:500], "model": got[0][:300]})
+    if only:
+        sl.violations = [v for v in sl.violations if v["signature"].startswith(only)]
+    return sl
+
+
+# ------------------------------------------------------------------------------------------ SEA family
+def _sea_case(rng):
+    """one real pass of BaseSEA.run; returns (driver lines, expected answers, meta, violations)"""
+    from pyhms.core.individual import Individual
+    from pyhms.core.problem import FunctionProblem
+    from pyhms.demes.single_pop_eas import sea as S
+
+    mx = bool(rng.random() < 0.4)
+    box = BOXES[int(rng.integers(len(BOXES)))]
+    d = len(box)
+    bounds = np.array(box, dtype=float)
+    which = int(rng.integers(0, 4))
+    pipe = ["sea", "seax", "ga", "sea"][which]
+    cls = [S.SEA, S.SEAWithCrossover, S.GAStyleSEA, S.SEAWithAdaptiveMutation][which]
+    n = int(rng.integers(3, 11))
+    shape = int(rng.integers(0, 4))
+    calls = []
+    prob = FunctionProblem(_objective(shape, calls, mx), bounds=bounds, maximize=mx)
+    pts = rng.uniform(bounds[:, 0], bounds[:, 1], size=(n, d))
+    layout = int(rng.integers(0, 4))
+    if layout == 0:
+        pts[:, 0] = bounds[0, 1]
+        pts[0] = bounds[:, 0]
+    elif layout == 1:
+        pts[n // 2 :] = pts[0]
+    parents = [Individual(p.copy(), problem=prob) for p in pts]
+    for p in parents:
+        p.evaluate()
+    if rng.random() < 0.1:
+        parents[int(rng.integers(n))].fitness = -np.inf if mx else np.inf
+    pM = float(rng.choice([1.0, 0.6, 0.3, 0.0]))
+    pX = float(rng.choice([0.7, 1.0, 0.3]))
+    width = float(np.mean(bounds[:, 1] - bounds[:, 0]))
+    std = float(rng.choice([0.15, 1.0, 4.0])) * width
+    k_el = int(rng.integers(1, 3))
+    eng = cls.create(problem=prob, mutation_std=std, p_mutation=pM, p_crossover=pX, k_elites=k_el)
+    np.random.seed(int(rng.integers(1 << 30)))
+    captured = {}
+    osel = eng.select_new_population
+
+    def sel(par, off, _o=osel):
+        captured["off"] = [(tuple(float(t) for t in g), float(f)) for g, f in zip(off.genomes, off.fitnesses)]
+        out = _o(par, off)
+        captured["elites"] = None
+        return out
+
+    eng.select_new_population = sel
+    calls.clear()
+    kw = {"mutation_std": std * 0.5} if which == 3 else {}
+    with Rec() as rec:
+        new = eng.run(parents, **kw)
+    P = inds_pairs(parents)
+    O = captured["off"]
+    N = inds_pairs(new)
+    Q = list(calls)
+    cont = rec.randint[0]
+    scal = [x for x in rec.rand if np.ndim(x) == 0]
+    mats = [x for x in rec.rand if np.ndim(x) == 2]
+    pairs = []
+    if pipe in ("seax", "ga"):
+        it = iter(scal)
+        for _ in range(n // 2):
+            u = next(it)
+            al = next(it) if u < pX else 0.0
+            pairs.append((u, al))
+    mask = mats[-1]
+    noise = rec.normal[-1] if pipe != "ga" else rec.uniform[-1]
+    m = 1 if mx else 0
+    line = (f"seagen {m} f64 {pipe} {_box_tok(box)} {fr(pX)} {fr(pM)} {inds_tok(P)} {len(cont)} " + " ".join(f"{len(c)} " + " ".join(str(int(t)) for t in c) for c in cont)
+            + f" {len(pairs)} " + " ".join(f"{fr(u)} {fr(a)}" for u, a in pairs) + f" {_rows_tok(mask)} {_rows_tok(noise)} {len(Q)} " + " ".join(fit(v) for _, v in Q))
+    expect = f"{inds_tok(O)} | {inds_tok(Q)}"
+    viol = []
+    name = cls.__name__
+    f0 = _objective(shape, [], mx)
+    inbox = lambda g: all(lo <= x <= hi for x, (lo, hi) in zip(g, box))  # noqa: E731
+    pool = {p for p in P}
+    for i, (g, f) in enumerate(O):
+        if not inbox(g):
+            viol.append(("C01/offspring-outside-box", f"{name}: offspring row {i} = {list(g)} lies outside the box {box}"))
+        if (g, f) in Q:
+            continue
+        if (g, f) not in pool:
+            v = f0(np.array(g))
+            viol.append(("C02/stored-fitness-wrong/engine-offspring", f"{name}: offspring row {i} = {list(g)} carries fitness {f!r} without having been evaluated in this generation and is not an individual of the parents (objective gives {v!r})"))
+    if len(N) != n:
+        viol.append(("C12/size", f"{name}.run returned {len(N)} individuals for {n} parents"))
+    for x in N:
+        if x not in pool and x not in O:
+            viol.append(("C11/individual-neither-parent-nor-offspring", f"{name}: new individual {x} is neither a parent nor an offspring of this generation"))
+            break
+    return line, expect, {"engine": name, "nontrivial": pM < 1.0 or layout < 2, "n": n}, viol
+
+
+def slice_sea(ctx, rng, n_cases, only=None):
+    sl = Slice("BaseSEA.run variational pipeline vs Engine.seaOffspring (draws recorded, bit-exact)")
+    lines, expects, metas = [], [], []
+    for _ in range(n_cases):
+        try:
+            line, expect, meta, viol = _sea_case(rng)
+        except Exception as e:  # noqa: BLE001
+            from .common import is_env_crash
+
+            if is_env_crash(e):
+                sl.skipped += 1
+                continue
+            sl.disagreements.append({"op": "sea generation", "impl": f"raised {type(e).__name__}: {e}", "model": "-"})
+            continue
+        lines.append(line)
+        expects.append(expect)
+        metas.append(meta)
+        for sig, det in viol:
+            sl.violations.append({"signature": sig, "detail": det, "replay": {"op": line[:6000]}})
+    got = run_driver(lines)
+    for line, g, e, meta in zip(lines, got, expects, metas):
+        sl.cases += 1
+        sl.count(meta["engine"])
+        if meta["nontrivial"]:
+            sl.nontrivial.add(hash(line))
+        if g != e:
             sl.disagreements.append({"op": line[:6000], "impl": e[:3000], "model": g[:3000]})
     if lines:
         sl.sample({"op": lines[0][:500], "model": got[0][:300]})
